@@ -7,7 +7,7 @@ rm -rf build/evidence.keep && cp -r evidence build/evidence.keep
 trap 'rm -rf /verif/evidence && cp -r /verif/build/evidence.keep /verif/evidence' EXIT
 pairs=("$@")
 if [ ${#pairs[@]} -eq 0 ]; then
-  pairs=(C01:f71956b C02:942e253 C04:454415d C02:035ef8a C10:f18778e C14:c486d2e C15:799e51d C16:5610a1f C17:ddad393 C17:896f37a C17:988ef59 C19:2972ab6 C12:7e55efc C17:69b2647 C10:d605ff8 C05:7ee45e5 C07:8476782 C09:dfe8f2a C20:e1e20f7 C18:10bc6da C18:8595b28 C02:bfbdbb1)
+  pairs=(C01:f71956b C02:942e253 C04:454415d C02:035ef8a C10:f18778e C14:c486d2e C15:799e51d C16:5610a1f C17:ddad393 C17:896f37a C17:988ef59 C19:2972ab6 C12:7e55efc C17:69b2647 C10:d605ff8 C05:7ee45e5 C07:8476782 C09:dfe8f2a C20:e1e20f7 C18:10bc6da C18:8595b28 C02:bfbdbb1 C20:6ef84f8)
 fi
 for pc in "${pairs[@]}"; do
   p=${pc%%:*}; c=${pc##*:}
